@@ -88,6 +88,10 @@ func Mutate(t *rapid.T, enc Enc) Mutation {
 			if nv > MaxHostile {
 				nv = MaxHostile
 			}
+			if f.W == 8 && rapid.IntRange(0, 2).Draw(t, "mut.huge") == 0 {
+				// values that no input can back and that do not fit an int: rejected before anything is allocated
+				nv = rapid.SampledFrom([]uint64{1 << 62, 1<<63 - 1, 1 << 63, 1<<64 - 1}).Draw(t, "mut.huge64")
+			}
 			if nv == orig {
 				continue
 			}
